@@ -188,7 +188,7 @@ func (h *H) B(r, p int64) {
 	if rd := h.sc.Rule(int(r)); rd != nil && int(p) < len(rd.Secs) && (rd.Secs[p].Kind == SecReader || rd.Secs[p].Kind == SecLocObjReader) {
 		fire = 1 // a reader rule always faults: it reads a local it never assigned
 	}
-	if rd := h.sc.Rule(int(r)); rd != nil && int(p) < len(rd.Secs) && (rd.Secs[p].Kind == SecArgCount || rd.Secs[p].Kind == SecFnArgCount) {
+	if rd := h.sc.Rule(int(r)); rd != nil && int(p) < len(rd.Secs) && (rd.Secs[p].Kind == SecArgCount || rd.Secs[p].Kind == SecFnArgCount || rd.Secs[p].Kind == SecStrayBreak) {
 		fire = 1 // a call with too few arguments always faults
 	}
 	if rd := h.sc.Rule(int(r)); rd != nil && int(p) == len(rd.Secs) && rd.Ret == RetUnexp {
